@@ -318,10 +318,12 @@ func HandleSetFileInfo(cc *hotline.ClientConn, t *hotline.Transaction) (res []ho
 			if err != nil {
 				return nil
 			}
-			hlFile.Name, err = txtDecoder.String(string(fileNewName))
+			newName, err := txtDecoder.String(string(fileNewName))
 			if err != nil {
 				return res
 			}
+			// The new name is a single path component, never a path that could leave the folder.
+			hlFile.Name = filepath.Base(filepath.Join("/", newName))
 
 			err = hlFile.Move(fileDir)
 			if os.IsNotExist(err) {
